@@ -226,6 +226,38 @@ known("KF-C13-04", "C13", V, None, r"(bytes-differ:.+|panic:.+|variant-error|mem
 known("KF-C13-05", "C13", V, None, r"(bytes-differ:.+|panic:.+|variant-error)", r"(/internal/encoder\.AppendMarshalJSONIndent|.*) @ feature:(ptr-to-marshaler|array1-ptr-shaped-elem)",
       'MarshalIndent([]*json.RawMessage{nil}) panics (AppendMarshalJSONIndent lacks the nil check AppendMarshalJSON has)', "internal/encoder/encoder.go AppendMarshalJSONIndent", "see KF-C13-04", "see KF-C13-04")
 
+# ------------------------------------------------------------------ C04
+FEATURE_ROOT = {
+ "ptr2\\+": ("KF-C01-PTR2", "pointer chains of depth >= 2 are mis-indirected by the encoder"),
+ "array1-ptr-shaped-elem": ("KF-C01-ARR1", "one-element arrays of pointer-shaped elements are mis-indirected by the encoder"),
+ "struct-ptr-shaped": ("KF-C01-PSTRUCT", "single-pointer-field structs are mis-indirected by the encoder"),
+ "mapkey-marshaler": ("KF-C01-MAPKEY", "TextMarshaler map keys are encoded from a wrong address / with other rules than encoding/json"),
+ "embedded-conflicts": ("KF-C01-EMB", "embedded-field dominance differs from encoding/json"),
+ "embedded-structof": ("KF-C01-EMB", "embedded-field dominance differs; nil embedded pointer dereferenced"),
+ "marshalerP-by-value": ("KF-C01-MPVAL", "pointer-receiver marshalers used on unaddressable values"),
+ "nilable-marshalerV": ("KF-C01-NILMV", "nil map/slice-kind value-receiver marshalers encoded as null"),
+ "omitempty-marshaler": ("KF-C01-OMITM", "omitempty ignored for marshaler-typed fields"),
+ "ptr-to-marshaler": ("KF-C01-PTRM", "nil pointers to marshaler types are not encoded as null"),
+ "string-opt-nonscalar": ("KF-C02-STRNS", "the ,string option is honoured for non-scalar fields (encoding/json ignores it there)"),
+ "string-opt-float-or-string": ("KF-C01-STRS", ",string on string/float fields"),
+ "name-collisions": ("KF-C15-COLL", "decoder field lookup does not implement encoding/json's tagged-wins / ambiguity rules for colliding names"),
+ "tags-zoo": ("KF-C01-TAGS", "the Tags zoo types combine several of the above"),
+ "array0-omitempty": ("KF-C01-A0OMIT", "omitempty on [0]T"),
+}
+def feature_entries(prop, monitor, pfx, kinds, feats):
+    for f in feats:
+        same, what = FEATURE_ROOT[f]
+        known("%s-F-%s" % (pfx, f.replace("\\", "").replace("+", "plus")), prop, r"(%s|process)" % monitor, None, kinds, r"(.* @ )?feature:" + f,
+              "a value of a type with feature '%s' does not satisfy the property; root cause %s: %s" % (f.replace("\\", ""), same, what),
+              "see " + same, "any other defect that only shows on types carrying this feature", "see " + same)
+RT = r"(encode-error|decode-error|not-equal:.+|panic:.+|fatal:.+|checkptr:.+|ill-formed-destination|excessive-allocation)"
+feature_entries("C04", "roundtrip", "KF-C04", RT, ["ptr2\\+", "array1-ptr-shaped-elem", "struct-ptr-shaped", "mapkey-marshaler", "embedded-conflicts", "embedded-structof",
+                "marshalerP-by-value", "nilable-marshalerV", "omitempty-marshaler", "ptr-to-marshaler", "string-opt-nonscalar", "string-opt-float-or-string", "name-collisions", "tags-zoo"])
+
+known("KF-C04-STREAM", "C04", "roundtrip", r"Encoder→Decoder", r"stream-differs-from-buffer", r"doc>500B with .*escape across a refill boundary.*",
+      'a >512-byte document whose struct key is spelled "\\u003ck\\u003e" decodes with Unmarshal but fails (or mis-assigns) with Decoder when the escape straddles the 512-byte refill', "internal/decoder/struct.go decodeKeyByBitmap*Stream / decodeKeyCharByUnicodeRuneStream: state lost when the buffer is refilled inside an escaped key (see C09)",
+      "other stream-only failures on large documents containing \\u00XX escapes", "belongs to the stream refill logic; C09 keeps the precise chunk-level findings")
+
 json.dump({"comment": "generated by tools/gen_known.py; never written at check time", "findings": F},
           open(os.path.join(os.path.dirname(os.path.abspath(__file__)), "..", "known_findings.json"), "w"), indent=1, ensure_ascii=False)
 print(len(F), "entries")
